@@ -57,6 +57,27 @@ func (e *Engine) verifyFunc(fn *ssa.Function, ct *Contract, prop string) *Run {
 
 	outs := r.execFunc(fn, st, args, bind, 0, true)
 	r.retPaths = len(outs)
+	// vacuity guard: some return path must be reachable under the contracts assumed along it (an inconsistent callee contract or
+	// invariant makes every postcondition hold vacuously). The path with the most calls and the one with the fewest are probed.
+	if len(outs) > 0 {
+		lo, hi := outs[0], outs[0]
+		for _, o := range outs {
+			if len(o.st.trace) < len(lo.st.trace) {
+				lo = o
+			}
+			if len(o.st.trace) > len(hi.st.trace) {
+				hi = o
+			}
+		}
+		probes := []Outcome{hi}
+		if lo.st != hi.st {
+			probes = append(probes, lo)
+		}
+		for _, o := range probes {
+			r.queries = append(r.queries, &Query{Name: r.name + "/cover:return", Props: ct.Props, Fn: r.name, Kind: "cover", PC: append([]string(nil), o.st.pc...),
+				Uses: sortedKeys(o.st.uses), Goal: "false", Cover: true, Run: r})
+		}
+	}
 	res := fn.Signature.Results()
 	for _, o := range outs {
 		vars := map[string]*Val{}
